@@ -306,6 +306,15 @@ def run_case(case):
     res = {}
     if ser.build_sx(case["integrand"], env) == 0:
         return {"err": "degenerate-zero-integrand"}      # Integral(0, region) is the number 0: nothing to transform
+    # pre-history: other regions of the same domain lowered first in the same interpreter WITHOUT clearing sympy's
+    # cache (a session that assembles volume and face terms one after the other); the result for the region under
+    # test must not depend on it
+    for h in case.get("history", []):
+        try:
+            hc = dict(case); hc["region"] = h; hc["sides"] = None; hc["grad"] = False; hc["form"] = "linear"
+            lower(hc, D, patches, env, unit=True)
+        except Exception:  # noqa
+            pass
     try:
         full = lower(case, D, patches, env, unit=False)
         unit = lower(case, D, patches, env, unit=True)
